@@ -53,6 +53,11 @@ class Spec:
             M5.index_plus_label_promotion(repo, col, anchors)
             M5.asarray_alias_inplace(repo, col, anchors)
             M5.unbuffered_write_unchecked(repo, col, anchors)
+            M5.shift_beyond_width(repo, col, anchors)
+            M5.temporary_state_used_after(repo, col, anchors)
+            M5.deferred_error_checked(repo, col, anchors)
+            M5.module_table_mutated(repo, col, anchors)
+            M5.param_reordered_in_place(repo, col, anchors)
             for o in col.obs:
                 ln = None
                 if o.loc and o.loc.rsplit(":", 1)[-1].isdigit():
@@ -140,6 +145,7 @@ UNITS_INFO = [("volume_reader", "nibabel_image_to_info", "vs", 1e6),
        "memory-mapped vs full-load equality"],
       ["NumPy promotion / safe-cast / iinfo tables embedded in rules_dtype"])
 def c01(repo, col):
+    M5.numpy_scalar_vs_int_bound(repo, col)
     A.check_modules(repo, col, ['_compressed_segmentation'])
     M4.round_clip_in_work_dtype(repo, col)
     M4.minishard_final_before_use(repo, col)
@@ -219,6 +225,8 @@ def c02(repo, col):
       ["value round trips of each codec", "JPEG error bound",
        "interleavings of writes and reads"])
 def c03(repo, col):
+    M5.shift_beyond_width(repo, col, ['_compressed_segmentation'])
+    M5.index_plus_label_promotion(repo, col, ['_compressed_segmentation'])
     M4.decode_ignores_write_options(repo, col)
     M3.decoder_fills_output(repo, col)
     M3.encoder_dispatch(repo, col)
@@ -370,6 +378,7 @@ def c06(repo, col):
       ["NumPy promotion tables embedded in rules_dtype",
        "np.unique returns sorted labels; np.argmax returns the first maximum"])
 def c07(repo, col):
+    M5.numpy_scalar_vs_int_bound(repo, col)
     M4.round_clip_in_work_dtype(repo, col)
     M4.pad_after_promotion(repo, col)
     M3.downscaler_dispatch(repo, col)
@@ -466,6 +475,7 @@ def c10(repo, col):
        "half-to-even)", "strided inputs"],
       ["NumPy promotion / safe-cast / iinfo tables embedded in rules_dtype"])
 def c11(repo, col):
+    M5.numpy_scalar_vs_int_bound(repo, col)
     M4.round_clip_in_work_dtype(repo, col)
     D.converter_lattice(repo, col)
     S.inplace_ownership(repo, col)
@@ -520,6 +530,7 @@ def c12(repo, col):
        "flush chain"],
       ["decoded equality of source and destination", "remote sources"])
 def c13(repo, col):
+    M5.numpy_scalar_vs_int_bound(repo, col)
     S.protocol_conformance(repo, col)
     M4.round_clip_in_work_dtype(repo, col)
     M4.legacy_seek_rebased(repo, col)
@@ -566,6 +577,7 @@ def c13(repo, col):
       ["byte equality with local reads", "server behaviours beyond status "
        "and length"])
 def c14(repo, col):
+    M5.vacuous_all_in_predicate(repo, col)
     M4.sibling_accessors_same_location(repo, col)
     M4.nonempty_range_before_read(repo, col)
     M4.lowercase_hex_names(repo, col)
@@ -723,6 +735,7 @@ def c18(repo, col):
        "always pass through the codec"],
       ["equality of the two outputs", "idempotence of repeated steps"])
 def c19(repo, col):
+    M3.write_open_truncates(repo, col)
     # the all-in-one command and the separate steps share volume_reader
     M5.omitted_forward(repo, col, ['volume_reader'])
     M5.suppressing_context_in_main(repo, col)
